@@ -333,6 +333,24 @@ def check_error_construction(rep, src, rule, modname, only=None, minimum=1):
             if not (isinstance(r_, ast.Raise) and isinstance(r_.exc, ast.Call)):
                 continue
             for a_ in r_.exc.args:
+                if isinstance(a_, ast.BinOp) and isinstance(a_.op, ast.Mod) and not isinstance(a_.left, ast.Constant):
+                    # the FORMAT is not a literal: when it is put together from data (str.format, an f-string, a concatenation with a
+                    # value) a per cent sign in the data is read as a conversion -- TypeError / ValueError instead of the promised error
+                    left_ = a_.left
+                    if isinstance(left_, ast.Name):
+                        binds_ = [st_ for st_ in walk_no_nested(f.node) if isinstance(st_, ast.Assign) and len(st_.targets) == 1 and norm(st_.targets[0]) == left_.id]
+                        left_ = binds_[0].value if len(binds_) == 1 else left_
+                    from_data = (isinstance(left_, ast.Call) and isinstance(left_.func, ast.Attribute) and left_.func.attr == 'format'
+                                 and any(not isinstance(x_, ast.Constant) for x_ in list(left_.args) + [k_.value for k_ in left_.keywords])) \
+                        or (isinstance(left_, ast.JoinedStr) and any(isinstance(x_, ast.FormattedValue) for x_ in left_.values)) \
+                        or (isinstance(left_, ast.BinOp) and isinstance(left_.op, ast.Add) and any(not isinstance(x_, ast.Constant) for x_ in (left_.left, left_.right)))
+                    if from_data:
+                        n += 1
+                        rep.fail(rule, f.site, 'message of `raise %s(...)`' % norm(r_.exc.func), 'the format of the message, %s, is itself built from data and then used with %%: a '
+                                 'per cent sign in that data (a file pattern such as "share/%%s.mo" or "cover-100%%") is read as a conversion, building the message raises TypeError '
+                                 'or ValueError, and the refusal reaches the caller as that instead of %s' % (norm(left_)[:70], norm(r_.exc.func)),
+                                 where='%s:%d' % (mod.relpath, r_.lineno))
+                    continue
                 if not (isinstance(a_, ast.BinOp) and isinstance(a_.op, ast.Mod) and isinstance(a_.left, ast.Constant) and isinstance(a_.left.value, str)):
                     continue
                 specs = [m_ for m_ in conv.finditer(a_.left.value) if m_.group('c') != '%']
@@ -386,3 +404,97 @@ class SoftErrors:
 
     def __getattr__(self, name):
         return getattr(self._rep, name)
+
+
+def check_closure_factories(rep, src, rule, modnames, why, minimum=1):
+    """a function that builds and returns a nested function (a stage of a pipeline made at import time, a parser bound to a type) hands out
+    ONE function object for all later calls: a mutable object created in the outer function and used by the nested one (directly or through
+    another nested function) is state shared by every call -- what one call leaves in it (after an exception, an abandoned iteration)
+    is what the next call starts with.  Mutable = a list / dict / set display or constructor, a deque; used = read, mutated or re-bound."""
+    from ..core import norm, AnalysisError, walk_no_nested
+    n = 0
+    for modname in modnames:
+        mod = src.mod(modname)
+        for q, f in sorted(mod.funcs.items()):
+            if '#' in q:
+                continue
+            nested = [st for st in f.node.body if isinstance(st, ast.FunctionDef)]
+            returned = {norm(r_.value) for r_ in walk_no_nested(f.node) if isinstance(r_, ast.Return) and r_.value is not None}
+            if not nested or not any(g.name in returned for g in nested):
+                continue
+            n += 1
+            mutable = {}
+            for st in f.node.body:
+                if isinstance(st, (ast.Assign, ast.AnnAssign)):
+                    t_ = st.targets[0] if isinstance(st, ast.Assign) else st.target
+                    v_ = st.value
+                    if isinstance(t_, ast.Name) and v_ is not None and (
+                            isinstance(v_, (ast.List, ast.Dict, ast.Set, ast.ListComp, ast.DictComp, ast.SetComp)) or (
+                                isinstance(v_, ast.Call) and norm(v_.func) in ('list', 'dict', 'set', 'collections.deque', 'deque', 'collections.defaultdict', 'defaultdict',
+                                                                              'collections.OrderedDict', 'OrderedDict', 'bytearray'))):
+                        mutable[t_.id] = st.lineno
+            used = None
+            for g in nested:
+                own = {a_.arg for a_ in g.args.args + g.args.kwonlyargs} | {x_.id for x_ in ast.walk(g) if isinstance(x_, ast.Name) and isinstance(x_.ctx, ast.Store)
+                                                                            and not any(isinstance(y_, ast.Nonlocal) and x_.id in y_.names for y_ in ast.walk(g))}
+                for x_ in ast.walk(g):
+                    if isinstance(x_, ast.Name) and x_.id in mutable and x_.id not in own and used is None:
+                        used = (x_.id, g.name, x_.lineno)
+            what = 'what %s returns keeps no mutable state between calls' % f.qual
+            if used:
+                rep.fail(rule, f.site, what, 'the %s `%s` is created once per call of %s (line %d) and used by the nested function %s (line %d) -- the function that is handed out, or a helper of it --: every call of '
+                         'the returned function works on the same object; %s' % ('container', used[0], f.qual, mutable[used[0]], used[1], used[2], why),
+                         where='%s:%d' % (mod.relpath, mutable[used[0]]))
+            else:
+                rep.ok(rule, f.site, what, 'no container of the outer function is used by a nested one', nontrivial=False)
+    if n < minimum:
+        raise AnalysisError('%s: only %d functions that return a nested function found' % (', '.join(modnames), n))
+    return n
+
+
+def check_class_level_mutables(rep, src, rule, modname, why, minimum=0):
+    """a list / dict / set bound in a class body is ONE object for the class and all its instances: a method that changes it in place
+    through `self` (append, update, item assignment ...) -- while no method of the hierarchy ever binds an object of its own under that
+    name -- makes what one object recorded visible to every other object.  (Tables that are only read are fine.)"""
+    from ..core import norm, AnalysisError
+    mod = src.mod(modname)
+    n = 0
+    for cname, cnode in sorted(mod.classes.items()):
+        tables = {}
+        for st in cnode.body:
+            if isinstance(st, (ast.Assign, ast.AnnAssign)):
+                t_ = st.targets[0] if isinstance(st, ast.Assign) else st.target
+                v_ = st.value
+                if isinstance(t_, ast.Name) and v_ is not None and (isinstance(v_, (ast.List, ast.Dict, ast.Set)) or (
+                        isinstance(v_, ast.Call) and norm(v_.func) in ('list', 'dict', 'set', 'collections.deque', 'deque', 'collections.defaultdict', 'defaultdict'))):
+                    tables[t_.id] = st.lineno
+        if not tables:
+            continue
+        family = [c2 for c2 in mod.classes if cname in mod.mro(c2)]
+        funcs = [f for q, f in mod.funcs.items() if q.split('.')[0] in family]
+        for name, line in sorted(tables.items()):
+            n += 1
+            attr_names = {name, '_%s%s' % (cname.lstrip('_'), name) if name.startswith('__') and not name.endswith('__') else name}
+            rebound = any(isinstance(x_, ast.Attribute) and isinstance(x_.ctx, ast.Store) and norm(x_.value) == 'self' and x_.attr in attr_names for f in funcs for x_ in ast.walk(f.node))
+            hit = None
+            for f in funcs:
+                for x_ in ast.walk(f.node):
+                    tgt = None
+                    if isinstance(x_, ast.Call) and isinstance(x_.func, ast.Attribute) and x_.func.attr in MUTATING_METHODS and isinstance(x_.func.value, ast.Attribute) \
+                            and norm(x_.func.value.value) in ('self', 'cls', cname) and x_.func.value.attr in attr_names:
+                        tgt = x_
+                    elif isinstance(x_, ast.Subscript) and isinstance(x_.ctx, (ast.Store, ast.Del)) and isinstance(x_.value, ast.Attribute) \
+                            and norm(x_.value.value) in ('self', 'cls', cname) and x_.value.attr in attr_names:
+                        tgt = x_
+                    if tgt is not None and hit is None:
+                        hit = (f, tgt.lineno, norm(tgt)[:50])
+            what = 'class-level %s.%s is not changed through an instance' % (cname, name)
+            if hit and not rebound:
+                rep.fail(rule, '%s:%s' % (modname, cname), what, '%s.%s (line %d) is one object for the class and all its instances, and %s changes it in place (line %d: %s) while '
+                         'no method binds an object of its own under that name: what one object records there is seen by every later object; %s'
+                         % (cname, name, line, hit[0].qual, hit[1], hit[2], why), where='%s:%d' % (mod.relpath, hit[1]))
+            else:
+                rep.ok(rule, '%s:%s' % (modname, cname), what, 'only read' if not hit else 'every object binds its own', nontrivial=False)
+    if n < minimum:
+        raise AnalysisError('%s: only %d class-level containers found' % (modname, n))
+    return n
